@@ -1,6 +1,7 @@
 package main
 
 import (
+	"sort"
 	"fmt"
 	"go/types"
 	"strings"
@@ -561,6 +562,8 @@ var purePrefixes = []string{
 	"sigs.k8s.io/controller-runtime/pkg/client.ObjectKeyFromObject", "k8s.io/klog/v2.KObj", "k8s.io/klog/v2.KRef",
 	"(error).Error", "github.com/samber/lo.",
 	"(sigs.k8s.io/controller-runtime/pkg/client.Client).SubResource", "(sigs.k8s.io/controller-runtime/pkg/client.Client).Status", "(sigs.k8s.io/controller-runtime/pkg/client.Client).Scheme",
+	"sigs.k8s.io/karpenter/pkg/controllers/disruption.(Command).LogValues", "sigs.k8s.io/karpenter/pkg/controllers/disruption.(Command).String",
+	"(sigs.k8s.io/karpenter/pkg/controllers/disruption.Method).Reason", "(sigs.k8s.io/karpenter/pkg/controllers/disruption.Method).Class", "(sigs.k8s.io/karpenter/pkg/controllers/disruption.Method).ConsolidationType",
 	"k8s.io/apimachinery/third_party/forked/golang/reflect.(Equalities).DeepEqual", "k8s.io/apimachinery/pkg/api/equality.",
 	"sigs.k8s.io/controller-runtime/pkg/client.MergeFrom", "github.com/awslabs/operatorpkg/object.GVK",
 	"(sigs.k8s.io/karpenter/pkg/cloudprovider.CloudProvider).RepairPolicies", "(sigs.k8s.io/karpenter/pkg/cloudprovider.CloudProvider).GetSupportedNodeClasses", "(sigs.k8s.io/karpenter/pkg/cloudprovider.CloudProvider).Name", "(*sigs.k8s.io/karpenter/pkg/events.", "(sigs.k8s.io/karpenter/pkg/events.Recorder)", "sigs.k8s.io/karpenter/pkg/events.",
@@ -834,5 +837,134 @@ func init() {
 		e.wf(cx.st, r, rt)
 		vc.assumeIf(cx.st.pc, fmt.Sprintf("(forall ((j Int)) (! (=> (and (<= 0 j) (< j (s_len %s))) (= (select %s (sidx %s j)) (sidx %s j))) :pattern ((sidx %s j))))", r, e.get(cx.st, bc), r, s, r))
 		return []Term{r}
+	}
+}
+
+// workqueue.ParallelizeUntil(ctx, workers, pieces, fn): runs fn(i) for i in [0,pieces). When the closure
+// has a contract (`//@ func <parent> closure@workqueue.ParallelizeUntil`) with a modifies clause, only
+// what that clause names may change at the call (the closure's own verification proves the frame for
+// every i); otherwise everything reachable is arbitrary afterwards.
+func init() {
+	stubs["k8s.io/client-go/util/workqueue.ParallelizeUntil"] = func(cx *callCtx) []Term {
+		fr := cx.fr
+		e := fr.eng
+		if len(cx.argVs) > 3 {
+			if clo := fr.closureOf(cx.argVs[3]); clo != nil && clo.fn.Parent() != nil {
+				key := canonName(clo.fn.Parent()) + " closure@workqueue.ParallelizeUntil"
+				if con := e.cs.Fns[key]; con != nil && con.HasMod && (!con.ModAll || len(con.Except) > 0) && !cx.spec {
+					nf := e.newFrame(clo.fn, fr)
+					for i, fv := range clo.fn.FreeVars {
+						if i < len(clo.bindings) {
+							nf.vals[fv] = clo.bindings[i]
+						}
+					}
+					pre := cx.st.clone()
+					env := nf.specEnvFor(pre)
+					env.con = con
+					env.pkg = con.Pkg
+					env.old = pre
+					if con.ModAll {
+						exc := env.resolveModifies(con.Except)
+						for c := range e.compSort {
+							if !strings.HasPrefix(c, "$") {
+								e.havocComp(cx.st, c)
+							}
+						}
+						e.assumeExcept(cx.st, pre, exc)
+					} else {
+						e.havocTargets(cx.st, env.resolveModifies(con.Modifies))
+					}
+					na := e.vc.fresh("alloc", "Int")
+					e.vc.assume(fmt.Sprintf("(>= %s %s)", na, cx.st.alloc))
+					cx.st.alloc = na
+					e.vc.usedCon[key] = true
+					e.vc.assumes["workqueue.ParallelizeUntil only runs the function it is given (for every index below pieces) and returns after all of them returned"] = true
+					return nil
+				}
+			}
+		}
+		if len(cx.argVs) > 3 && !cx.spec {
+			vc := e.vc
+			pieces := cx.args[2]
+			if _, ok := fr.repeatedClosure(cx, cx.argVs[3], func() []Term {
+				return []Term{vc.freshAlways("piece", "Int")}
+			}, false, func(as []Term) Term { return fmt.Sprintf("(and (<= 0 %s) (< %s %s))", as[0], as[0], pieces) }); ok {
+				vc.assumes["workqueue.ParallelizeUntil only runs the function it is given (for every index below pieces) and returns after all of them returned"] = true
+				return nil
+			}
+		}
+		return fr.havocCall(cx, "closure without frame contract")
+	}
+}
+
+// repeatedClosure models a helper that calls a known closure an unknown number of times: every heap
+// component the closure writes (found by a probe execution) becomes arbitrary, local-only objects of the
+// caller excepted; then the closure is executed once more, precisely, with the given arguments, so that
+// site obligations inside it are generated and its result is available. ok=false: not applicable.
+func (fr *Frame) repeatedClosure(cx *callCtx, v ssa.Value, args func() []Term, keepFinal bool, guard func([]Term) Term) (rs []Term, ok bool) {
+	e := fr.eng
+	vc := e.vc
+	clo := fr.closureOf(v)
+	if clo == nil || len(clo.fn.Blocks) == 0 || hasLoops(clo.fn) || fr.depth >= e.maxDepth || fr.recursive(clo.fn) {
+		return nil, false
+	}
+	run := func(st *State) []Term {
+		as := args()
+		if guard != nil {
+			st.pc = vc.name("pc", "Bool", and(st.pc, guard(as)))
+		}
+		sub := &callCtx{fr: fr, st: st, args: as, callee: clo.fn, name: canonName(clo.fn), sig: clo.fn.Signature, instr: cx.instr, common: cx.common, spec: cx.spec}
+		return fr.inline(sub, clo, nil)
+	}
+	vc.dry++
+	saveA, saveLog := len(vc.asserts), len(e.callLog)
+	saveRng, saveInl := e.rngCtr, e.inlineN
+	probe := cx.st.clone()
+	run(probe)
+	vc.asserts = vc.asserts[:saveA]
+	e.callLog = e.callLog[:saveLog]
+	e.rngCtr, e.inlineN = saveRng, saveInl
+	vc.dry--
+	var mods []string
+	for c, t := range probe.heap {
+		if strings.HasPrefix(c, "$") {
+			continue
+		}
+		if cx.st.heap[c] != t {
+			mods = append(mods, c)
+		}
+	}
+	sort.Strings(mods)
+	for _, c := range mods {
+		if _, ok := e.compSort[c]; ok {
+			e.havocComp(cx.st, c)
+		}
+	}
+	if len(mods) > 0 {
+		na := vc.fresh("alloc", "Int")
+		vc.assume(fmt.Sprintf("(>= %s %s)", na, cx.st.alloc))
+		cx.st.alloc = na
+	}
+	if !keepFinal {
+		// one representative execution for the obligations inside the closure; its state is dropped
+		run(cx.st.clone())
+		return nil, true
+	}
+	return run(cx.st), true
+}
+
+// retry.OnError(backoff, retriable, fn): calls fn until it succeeds, fails with a non-retriable error or
+// the backoff is exhausted, and returns the last error: earlier attempts are arbitrary writes to what fn
+// writes, the last attempt is executed precisely and its result returned.
+func init() {
+	stubs["k8s.io/client-go/util/retry.OnError"] = func(cx *callCtx) []Term {
+		fr := cx.fr
+		if len(cx.argVs) >= 3 {
+			if rs, ok := fr.repeatedClosure(cx, cx.argVs[2], func() []Term { return nil }, true, nil); ok {
+				fr.eng.vc.assumes["retry.OnError calls only the function it is given; its earlier attempts are over-approximated by arbitrary writes to what that function writes"] = true
+				return rs
+			}
+		}
+		return fr.havocCall(cx, "retry.OnError with unknown function")
 	}
 }
